@@ -484,6 +484,8 @@ pub fn lane_fates(tier: Tier, seed: u64) -> Vec<Scenario> {
                         sim,
                         pretty: false,
                         check: vec!["C05".into(), "C12".into(), "C13".into(), "C14".into(), "C15".into(), "C18".into(), "C20".into()],
+                        partner: None,
+                        turns: None,
                     };
                     if script {
                         // one stream for the whole document
@@ -541,6 +543,8 @@ pub fn lane_faults(tier: Tier, seed: u64) -> Vec<Scenario> {
                         sim,
                         pretty: false,
                         check: vec!["C05".into(), "C12".into(), "C13".into(), "C14".into(), "C15".into(), "C18".into(), "C20".into()],
+                        partner: None,
+                        turns: None,
                     };
                     fill_expectations(&mut sc, &mut g);
                     out.push(sc);
@@ -802,6 +806,8 @@ pub fn lane_timing(tier: Tier, seed: u64) -> Vec<Scenario> {
                                 sim,
                                 pretty: false,
                                 check: vec!["C05".into(), "C12".into(), "C14".into(), "C15".into(), "C18".into(), "C20".into()],
+                                partner: None,
+                                turns: None,
                             };
                             // the same run with a document added by -A / -P: the limits must not care
                             // (only for classes that do not depend on exact alignment)
@@ -1018,6 +1024,8 @@ pub fn lane_bytes(seed: u64) -> Vec<Scenario> {
                     sim,
                     pretty: false,
                     check: check.clone(),
+                    partner: None,
+                    turns: None,
                 });
             }
         }
@@ -1060,6 +1068,8 @@ pub fn lane_bytes(seed: u64) -> Vec<Scenario> {
                     sim,
                     pretty: false,
                     check: vec!["C13".into(), "C05".into(), "C20".into(), "C12".into()],
+                    partner: None,
+                    turns: None,
                 });
             }
         }
@@ -1158,6 +1168,8 @@ pub fn lane_big(seed: u64) -> Vec<Scenario> {
                         sim,
                         pretty: false,
                         check: vec!["C13".into()],
+                        partner: None,
+                        turns: None,
                     });
                 }
             }
@@ -1220,6 +1232,8 @@ pub fn lane_big_stdin(seed: u64) -> Vec<Scenario> {
                         sim,
                         pretty: false,
                         check: vec!["C13".into(), "C14".into()],
+                        partner: None,
+                        turns: None,
                     });
                 }
             }
@@ -1269,6 +1283,8 @@ pub fn lane_script_exit(seed: u64) -> Vec<Scenario> {
                     sim,
                     pretty: false,
                     check: vec!["C05".into(), "C15".into(), "C20".into(), "C13".into()],
+                    partner: None,
+                    turns: None,
                 };
                 fill_expectations(&mut sc, &mut g);
                 out.push(sc);
@@ -1312,6 +1328,8 @@ pub fn lane_early_exit(seed: u64) -> Vec<Scenario> {
                     sim,
                     pretty: false,
                     check: vec!["C13".into(), "C14".into(), "C05".into()],
+                    partner: None,
+                    turns: None,
                 });
             }
         }
